@@ -268,6 +268,7 @@ class Ribosome:
     def translate(
         self,
         template: str | mRNA,
+        /,
         **context: Any
     ) -> Protein:
         """
@@ -329,7 +330,7 @@ class Ribosome:
             warnings=warnings
         )
 
-    def synthesize(self, sequence: str, **context: Any) -> Protein:
+    def synthesize(self, sequence: str, /, **context: Any) -> Protein:
         """
         Direct synthesis without registering a template.
 
